@@ -743,34 +743,45 @@ theorem anySuffix_of_nil (f : List Char → Bool) (h : f [] = true) (s : List Ch
   | nil => simpa [anySuffix] using h
   | cons c s ih => simp [anySuffix, ih]
 
-/-- `*` matches every name. -/
 theorem glob_star (s : List Char) : globMatch ['*'] s = true := by
-  unfold globMatch
-  exact anySuffix_of_nil _ (by simp [globMatch]) s
+  have : tokenize 2 ['*'] = some [GTok.star] := by decide
+  simp only [globMatch, List.length_singleton, this]
+  exact anySuffix_of_nil _ (by simp [matchToks]) s
 
-/-- A name without `*`/`?` matches exactly itself. -/
-theorem glob_literal (p s : List Char) (h : ∀ c ∈ p, c ≠ '*' ∧ c ≠ '?') :
-    globMatch p s = true ↔ p = s := by
-  induction p generalizing s with
-  | nil => cases s <;> simp [globMatch]
+/-- a pattern without `*`, `?`, `[`, `\` matches exactly itself -/
+theorem tokenize_literal (p : List Char) (h : ∀ c ∈ p, c ≠ '*' ∧ c ≠ '?' ∧ c ≠ '[' ∧ c ≠ '\\')
+    (fuel : Nat) (hf : p.length < fuel) : tokenize fuel p = some (p.map GTok.lit) := by
+  induction p generalizing fuel with
+  | nil =>
+    cases fuel with
+    | zero => omega
+    | succ f => simp [tokenize]
   | cons c p ih =>
-    have hc := h c List.mem_cons_self
-    have hp : ∀ c ∈ p, c ≠ '*' ∧ c ≠ '?' := fun x hx => h x (List.mem_cons_of_mem _ hx)
+    cases fuel with
+    | zero => omega
+    | succ f =>
+      have hc := h c List.mem_cons_self
+      have := ih (fun d hd => h d (List.mem_cons_of_mem _ hd)) f (by simp at hf; omega)
+      simp [tokenize, hc.1, hc.2.1, hc.2.2.1, hc.2.2.2, this]
+
+theorem matchToks_lits (p s : List Char) : matchToks (p.map GTok.lit) s = true ↔ p = s := by
+  induction p generalizing s with
+  | nil => cases s <;> simp [matchToks]
+  | cons c p ih =>
     cases s with
-    | nil =>
-      rw [globMatch.eq_def]
-      split <;> simp_all
-    | cons d s =>
-      rw [globMatch.eq_def]
-      split
-      · simp_all
-      · simp_all
-      · simp_all
-      · rename_i h1 h2 heq
-        simp at heq
-        obtain ⟨rfl, rfl⟩ := heq
-        simp [ih _ hp]
+    | nil => simp [matchToks]
+    | cons d s => simp [matchToks, ih]
+
+theorem glob_literal (p s : List Char) (h : ∀ c ∈ p, c ≠ '*' ∧ c ≠ '?' ∧ c ≠ '[' ∧ c ≠ '\\') :
+    globMatch p s = true ↔ p = s := by
+  simp only [globMatch, tokenize_literal p h (p.length + 1) (by omega)]
+  exact matchToks_lits p s
 
 example : glob "sa4*" "sa4000" = true ∧ glob "s?4000" "sa4000" = true ∧ glob "sa4" "sa4000" = false := by decide
+
+example : glob "sa[14]000" "sa4000" = true ∧ glob "sa[^14]000" "sa4000" = false ∧ glob "sa400[0-9]" "sa4006" = true ∧
+    glob "sa[" "sa[" = false ∧ glob "sa[]000" "sa]000" = false ∧ glob "sa4\\000" "sa4000" = true ∧
+    glob "sa4000\\" "sa4000" = false ∧ glob "[a-]" "a" = false ∧ glob "\\*" "*" = true ∧ glob "[*]" "*" = true := by
+  decide
 
 end Verif.C10
